@@ -363,7 +363,9 @@ Fixpoint accept_one (fuel : nat) st (c : conn) (ys : ysched) : state * ysched :=
       end
   end.
 
-Definition accept_one_fuel st := S (2 * length (handles st)).
+(* enough for every case: between two send attempts at most |handles| - 1 workers are passed over, and every
+   failed attempt removes a handle *)
+Definition accept_one_fuel st := S (S (length (handles st)) * S (length (handles st))).
 
 (* Accept::accept(sockets, token); fuel bounds the `while` (each iteration consumes a backlog entry
    or an injected error) *)
